@@ -192,7 +192,7 @@ func eventfulSpec(g *lib.ChainGen, r *lib.RNG, version string) *lib.BlockSpec {
 			version = lib.Pick(r, g.Opt.Versions)
 		}
 	}
-	n := 1 + r.Intn(2)
+	n := 1 + r.Intn(3)
 	spec := &lib.BlockSpec{Version: version}
 	for i := 0; i < n; i++ {
 		tx := g.GenTx(version)
@@ -237,10 +237,15 @@ func (b *builder) store(spec *lib.BlockSpec) {
 	b.push(Step{Op: "store", B: bd})
 }
 
-// rejected offers the present head once more.
+// rejected offers a block the node already holds: the parent of the head when there is one
+// (a different number and different events than the head's, so that any trace the refused block
+// leaves in memory is visible), else the head.
 func (b *builder) rejected() {
-	if h := b.g.Head(); h != nil {
-		b.push(Step{Op: "rejected", B: h})
+	switch n := len(b.g.Bundles); {
+	case n >= 2:
+		b.push(Step{Op: "rejected", B: b.g.Bundles[n-2]})
+	case n == 1:
+		b.push(Step{Op: "rejected", B: b.g.Bundles[0]})
 	}
 }
 
